@@ -42,17 +42,22 @@ ENTRY = {
                       "the Rust code: dialer/listener futures with reader and writer buffers, tasks that write a payload, close and read to EOF, two "
                       "scripted pipes) under any poll sequence, any chunking and any Pending injection is related poll-by-poll to a run of the "
                       "message-level system; hence, as theorems about the byte-level model: any reported success carries the exact index of the first "
-                      "supported name (dialer) / first matching entry (listener), any reported failure means no common name, and after success each side "
-                      "receives exactly the other's application bytes with clean EOF and empty pipes - no application byte consumed or lost; whenever the "
-                      "harness scheduler reports completion the final state is the one the property demands. (5) Message-based WebRTC variant: "
-                      "listener on header+proposal / proposal after header / header alone, trailing bytes rejected, dialer verdict independent of "
-                      "message grouping, whole sessions agree on the first supported of main::fallbacks with fallbacks proposed in order. (6) Fallback "
-                      "name -> main protocol mapping of ProtocolSet::report_substream_open."),
-        "level_note": ("Not proved: byte-level TERMINATION (that the harness scheduler never reports stuck / needs bounded fuel) - termination is proved at "
-                      "message level under fair schedules and observed on every case of the differential run; V1Lazy has no theorem beyond the model/"
-                      "implementation diff: the dialer half is demanded by the oracle and the upstream-documented listener-side pitfall is kept as "
-                      "Example C03_lazy_pitfall (litep2p's transports use V1 only). The carrier below the scripted duplex (yamux/TCP), negotiation "
-                      "timeouts and the differential against rust-libp2p's multistream-select are not covered."),
+                      "supported name (dialer) / first matching entry (listener), any reported failure means no common name, after success each side "
+                      "receives exactly the other's application bytes with clean EOF and empty pipes - no application byte consumed or lost -, no "
+                      "reachable state is stuck short of completion, and BOTH TASKS TERMINATE under every fair poll sequence (an invariant-free "
+                      "potential over buffers, pipes, scripts and remaining names strictly decreases on every non-blocked poll); whenever the harness "
+                      "scheduler reports completion the final state is the one the property demands. (5) Message-based WebRTC variant: listener on "
+                      "header+proposal / proposal after header / header alone, trailing bytes rejected, dialer verdict independent of message grouping, "
+                      "whole sessions agree on the first supported of main::fallbacks with fallbacks proposed in order. (6) Fallback name -> main "
+                      "protocol mapping of ProtocolSet::report_substream_open. V1Lazy, dialer side: the future settles on its first poll (byte level); "
+                      "for every application-data content, listener set and schedule the dialer's verdict is 'confirmed' iff the listener supports the "
+                      "name (message level); the listener half of agreement is refuted by a witness (upstream-documented pitfall)."),
+        "level_note": ("Not proved: that the fuel bound and stuck detector of the harness scheduler (run_sys) never fire - byte-level termination is proved "
+                      "for every fair poll sequence instead, and C03_bytes_run_correct covers every completed run_sys run; the V1Lazy dialer-side theorem "
+                      "is at message level (application data abstracted as an arbitrary sequence of frames seen by the listener, dialer writes everything "
+                      "before it reads) - there is no byte-level projection for V1Lazy, only the model/implementation diff (litep2p's transports use V1 "
+                      "only). The carrier below the scripted duplex (yamux/TCP), negotiation timeouts and the differential against rust-libp2p's "
+                      "multistream-select are not covered."),
         "assumptions": [
             "protocol names are valid: start with '/', contain no newline, differ from /multistream/1.0.0, and name+1 <= 16383 bytes (others are run and diffed, but only consistency is demanded)",
             "the carrier is a reliable FIFO byte stream per direction",
